@@ -34,6 +34,9 @@ def Vector_sort_decorators : List String := []
 /-- the signature of dataiter/vector.py: Vector.sort: parameters in order, with the source text of their defaults -/
 def Vector_sort_signature : List String := ["self", "*", "dir=1"]
 
+/-- the calls of dataiter/vector.py: Vector.sort in the order Python makes them along the source text -/
+def Vector_sort_call_order : List String := ["self.is_object", "sorted", "self.fast", "new.is_na", "new[~na].concat", "self._optimize_for_argsort", "opt.argsort", "new.is_na", "new[~na].concat"]
+
 /-- dataiter/vector.py: Vector.rank (sha256 of the function source: a2dc17b194d3614a) -/
 def Vector_rank (truth : Term → Bool) : Out :=
   if truth (Term.app "Eq" [(Term.app ".length" [(Term.sym "self")]), (Term.int (0 : Int))]) then
@@ -97,6 +100,9 @@ def Vector_rank_decorators : List String := []
 /-- the signature of dataiter/vector.py: Vector.rank: parameters in order, with the source text of their defaults -/
 def Vector_rank_signature : List String := ["self", "*", "method='min'"]
 
+/-- the calls of dataiter/vector.py: Vector.rank in the order Python makes them along the source text -/
+def Vector_rank_call_order : List String := ["self.fast", "self.is_na", "self.is_na().all", "np.repeat", "self.fast", "self.is_na", "self._optimize_for_argsort", "np.zeros_like", "np.unique", "np.bincount", "np.concatenate", "np.concatenate(([0], np.bincount(inv))).cumsum", "(~na).sum", "out.view", "np.unique", "np.bincount", "np.bincount(inv).cumsum", "len", "out.view", "self[~na].argsort", "np.zeros_like", "len", "np.arange", "rank.max", "na.sum", "np.arange", "out.view", "ValueError"]
+
 /-- dataiter/vector.py: Vector.unique (sha256 of the function source: b250584209c6db2d) -/
 def Vector_unique (truth : Term → Bool) : Out :=
   let opt' : Term := (Term.app "._optimize_for_argsort" [(Term.sym "self")]);
@@ -111,6 +117,9 @@ def Vector_unique_decorators : List String := []
 /-- the signature of dataiter/vector.py: Vector.unique: parameters in order, with the source text of their defaults -/
 def Vector_unique_signature : List String := ["self"]
 
+/-- the calls of dataiter/vector.py: Vector.unique in the order Python makes them along the source text -/
+def Vector_unique_call_order : List String := ["self._optimize_for_argsort", "np.unique", "indices.sort", "self[indices.sort()].copy"]
+
 /-- dataiter/vector.py: Vector._optimize_for_argsort (sha256 of the function source: c40aed754af7a270) -/
 def Vector_optimize_for_argsort (truth : Term → Bool) : Out :=
   if (truth (Term.app ".is_string" [(Term.sym "self")]) && truth (Term.app "Gt" [(Term.app ".length" [(Term.sym "self")]), (Term.int (0 : Int))]) && truth (Term.app "Lt/Lt" [(Term.int (0 : Int)), (Term.app "walrus" [(Term.sym "n"), (Term.app ".max" [(Term.app ".str_len" [(Term.app ".str" [(Term.sym "self")])])])]), (Term.int (50 : Int))])) then
@@ -123,5 +132,8 @@ def Vector_optimize_for_argsort_decorators : List String := []
 
 /-- the signature of dataiter/vector.py: Vector._optimize_for_argsort: parameters in order, with the source text of their defaults -/
 def Vector_optimize_for_argsort_signature : List String := ["self"]
+
+/-- the calls of dataiter/vector.py: Vector._optimize_for_argsort in the order Python makes them along the source text -/
+def Vector_optimize_for_argsort_call_order : List String := ["self.is_string", "self.str.str_len", "self.str.str_len().max", "self.astype"]
 
 end DI.Gen
